@@ -89,6 +89,11 @@ impl Selector {
         let single_selector = &self.vec[id];
         let epoll = &single_selector.epoll;
 
+        #[cfg(may_verif)]
+        let timeout_ms = {
+            use std::os::fd::AsRawFd;
+            crate::verif::epoll_block(epoll.0.as_raw_fd(), timeout_ms)
+        };
         // Wait for epoll events for at most timeout_ms milliseconds
         let n = epoll.wait(events, timeout_ms)?;
         // println!("epoll_wait = {}", n);
@@ -154,6 +159,8 @@ impl Selector {
         let buf = 1u64.to_le_bytes();
         let ret = write(&self.vec[id].evfd, &buf);
         trace!("wakeup id={id:?}, ret={ret:?}");
+        #[cfg(may_verif)]
+        crate::verif::io_event();
     }
 
     // register io event to the selector
